@@ -1,13 +1,10 @@
 #!/bin/bash
-# run_on_refactor.sh <diff>: applies a behaviour-preserving refactoring to /repo, runs all quick checks, reverts; prints only alarms.
+# run_on_refactor.sh <diff> [Cxx ...]: applies a change to /repo, runs the quick checks on one load, reverts; prints only alarms.
 set -u
+d="$1"; shift
 cd /repo || exit 2
 [ -n "$(git status --porcelain)" ] && { echo "/repo is not clean"; exit 2; }
-git apply "$1" || { echo "patch does not apply"; exit 2; }
+git apply "$d" || { echo "patch does not apply"; exit 2; }
 trap 'git -C /repo checkout -- . ; git -C /repo clean -fdq' EXIT
-n=0
-for p in C01 C02 C03 C04 C05 C06 C07 C08 C09 C10 C11 C12 C13 C14 C15 C16 C17 C18 C19 C20; do
-  out=$(/verif/bin/asverif check $p --no-evidence --evidence /tmp/refac-ev 2>&1); rc=$?
-  if [ $rc -ne 0 ]; then n=$((n+1)); echo "  ALARM $p (exit $rc)"; echo "$out" | grep -v '^VIOLATION\|^KNOWN' | head -${LINES_MAX:-3} | cut -c1-${WIDTH_MAX:-330} | sed 's/^/     /'; fi
-done
-echo "  => $n alarms"
+out=$(/verif/bin/asverif checkall "$@" 2>&1)
+echo "$out" | awk -v L=${LINES_MAX:-3} -v W=${WIDTH_MAX:-330} '/^== /{ if ($4!="0") {print "  ALARM " $2 " (exit " $4 ")"; n++; k=0; show=1} else show=0; next } /^VIOLATION|^KNOWN/{next} show && k<L {print "     " substr($0,1,W); k++} END{print "  => " n+0 " alarms"}'
